@@ -68,6 +68,8 @@ def build_cases(prop, tier, rng):
     if prop in ("C01", "C15"):
         add(600 if q else 12000, G.Gen(rng, peeks=True), [5, 10, 20, 40, 80])
         add(200 if q else 3000, G.Gen(rng, peeks=True, offsets=True), [10, 30])
+        if prop == "C15":   # "in StrictlyAtOnce mode this still holds after a restart"
+            add(250 if q else 4000, G.Gen(rng, restarts=True, peeks=True), [10, 20, 40], modes=["strict"])
     elif prop == "C03":
         add(600 if q else 12000, G.Gen(rng, peeks=True, offsets=True), [5, 10, 20, 40])
         for k in range(2 if q else 8):   # entry-cap cases: more than 2000 tiny entries
